@@ -24,8 +24,16 @@ Inductive op :=
 | OReshape (shape : list N)               (* TensorView::reshaped: view or copy *)
 | OToContiguous                           (* to_contiguous: view or copy *)
 | OClipDim (dim a b : N)                  (* owned tensor with this layout, clip_dim *)
-| OAppend (axis k cap : N).               (* with_capacity(shape[axis := cap], axis), then append
+| OAppend (axis k cap : N)                (* with_capacity(shape[axis := cap], axis), then append
                                              view[.., 0..k, ..] and view[.., k.., ..] along axis *)
+| OAppendP (mode : N) (perm : list N) (axis k cap rep : N).
+   (* append to an owned tensor that was PERMUTED IN PLACE: its memory order of axes is
+      [perm] (outermost first).  The tensor is built in memory orientation holding
+      view[.., 0..k, ..] -- mode 0 (only when [axis] is outermost in memory): from_data on a
+      Vec with spare capacity; otherwise with_capacity(.., pos) + append -- then permuted in
+      place to the view's axis order, then view[.., k.., ..] is appended along [axis]; [rep]
+      selects the representation of the appended tensor (strided view / contiguous copy /
+      copy with transposed storage) and does not affect the result *)
 
 (* state of the model: the storage the current view points into, and the view *)
 Record mstate := mkM { m_store : list N; m_view : view }.
@@ -130,6 +138,31 @@ Definition apply_op (w : bool) (o : op) (st : mstate) : res mstate :=
                | Some t => Ok (mkM (scatter (min_data_len l2) (off_list l2) (t_elems t)) (mkV 0 l2))
                | None => Err EPanic
                end
+  | OAppendP mode perm axis k cap rep =>
+      let dims := v_dims v in
+      let shp := shape_of dims in
+      if negb (is_perm (ndim dims) perm) then Err EPanic
+      else if ndim dims <=? axis then Err EPanic
+      else
+        let n := nthN shp axis 0 in
+        if n <? k then Err EPanic
+        else
+          let pos := index_of axis perm in
+          let cap' := if (mode =? 0) && (pos =? 0) then N.max cap k else cap in
+          let mem_shape := replace_at (N.to_nat pos) cap' (map (fun a => nthN shp a 0) perm) in
+          let capacity := prodN mem_shape in
+          let cd := contiguous_dims mem_shape in
+          (* after the in-place permutation: axis a has the stride of memory position
+             index_of a perm; sizes are the view's *)
+          let l2 := map (fun a => mkdim (nthN shp a 0) (d_stride (nthN cd (index_of a perm) (0, 0))))
+                        (range (ndim dims)) in
+          let l1 := set_size (N.to_nat axis) k l2 in
+          if negb (has_capacity w capacity l1) then Err InsufficientCapacity
+          else if negb (has_capacity w capacity l2) then Err InsufficientCapacity
+          else match denote_fast (m_store st) v with
+               | Some t => Ok (mkM (scatter (min_data_len l2) (off_list l2) (t_elems t)) (mkV 0 l2))
+               | None => Err EPanic
+               end
   end.
 
 (* ---------------------------------------------------------------- the reference side *)
@@ -166,6 +199,13 @@ Definition ref_apply (o : op) (t : tensor N) (got : list N) : option (tensor N) 
       | Some l, Some r => ref_concat l r axis
       | _, _ => None
       end
+  | OAppendP _ perm axis k _ _ =>
+      if is_perm (rank t) perm then
+        match ref_slice_axis t axis 0 k, ref_slice_axis t axis k (nthN (t_shape t) axis 0) with
+        | Some l, Some r => ref_concat l r axis
+        | _, _ => None
+        end
+      else None
   end.
 
 (* errors that a documented precondition of the *view-producing* API allows even though
@@ -175,6 +215,7 @@ Definition contract_error (o : op) (e : err) : bool :=
   | OReshapeView _, NotContiguous => true     (* a view cannot reorder storage *)
   | OClipDim _ _ _, MayOverlap => true     (* harness could not build an owned tensor *)
   | OAppend _ _ _, InsufficientCapacity => true   (* documented: no re-allocation *)
+  | OAppendP _ _ _ _ _ _, InsufficientCapacity => true
   | _, _ => false
   end.
 
